@@ -22,7 +22,7 @@ Task: make a small, realistic change to the source under {wt} (the kind of slip 
   (c) the breakage needs something specific to manifest — a particular interleaving, a fault at a particular point, a multi-step sequence of operations, an unusual input, or two cooperating sites — NOT something ordinary use would expose at once.
 Prefer a change in the code the property is anchored in. Keep it to a few lines. Do not add comments that give the change away. Do not simply revert or weaken a recent commit of the repository (look at `git log -15 --stat` and stay away from what those commits touched). {hint}
 
-Then write a demonstration: a small self-contained program `{wt}/demo_{pid}.py` (run with `/venv/bin/python demo_{pid}.py` from {wt}) that exits non-zero / fails an assertion WITH your change and passes (exit 0) WITHOUT it (verify both: use `git stash` / `git stash pop` or `git diff > /tmp/seed-{pid}.diff; git checkout -- .; ...; git apply`). Many third-party packages (orjson, pymysql, aiomysql, jinja2, google.*, pyspark, numpy in /venv ...) are NOT installed and there is NO MySQL server and NO JVM build of the engine; the demonstration may therefore stub missing imports (e.g. insert fake modules into sys.modules before importing the target file, or load just the function under test with importlib / ast), or, for SQL / Scala changes that cannot be executed here, be a small faithful simulation of the changed statement's logic over in-memory tables with a clear explanation. Nothing can be installed.
+Then write a demonstration: a small self-contained program `{wt}/demo_{pid}.py` (run with `/venv/bin/python demo_{pid}.py` from {wt}) that exits non-zero / fails an assertion WITH your change and passes (exit 0) WITHOUT it (verify both: do NOT use `git stash` — the stash is shared between worktrees and other people work in sibling worktrees; use `git diff > {wt}/my.diff; git checkout -- <files>; ...; git apply {wt}/my.diff`). Many third-party packages (orjson, pymysql, aiomysql, jinja2, google.*, pyspark, numpy in /venv ...) are NOT installed and there is NO MySQL server and NO JVM build of the engine; the demonstration may therefore stub missing imports (e.g. insert fake modules into sys.modules before importing the target file, or load just the function under test with importlib / ast), or, for SQL / Scala changes that cannot be executed here, be a small faithful simulation of the changed statement's logic over in-memory tables with a clear explanation. Nothing can be installed.
 
 Deliverables, all inside {wt}:
   1. the source change left applied in the worktree (uncommitted),
